@@ -20,4 +20,5 @@ let () =
   | "adapters" -> Adrv.run ()
   | "hir" -> Hirdrv.run ()
   | "emit" -> Emitdrv.run ()
+  | "macro" -> Macrodrv.run ()
   | m -> prerr_endline ("unknown mode " ^ m); exit 2
